@@ -359,8 +359,25 @@ impl<'c, 's> Run<'c, 's> {
 
     // ------------------------------------------------------------ the delivery
 
-    /// the driver hands `b` to the library: decode, then process, on the same node
+    /// the driver hands `b` to the library; a node with a single transmit buffer lets
+    /// process_packet write its response over whatever request or response it encoded last
     pub fn handle(&mut self, ni: usize, b: Vec<u8>, fi: Option<usize>) {
+        let shared = self.nodes[ni].cfg.shared_buf;
+        if shared {
+            let node = &mut self.nodes[ni];
+            std::mem::swap(&mut node.tx, &mut node.resp);
+            std::mem::swap(&mut node.twin_tx, &mut node.twin_resp);
+            self.st.probe("response-written-into-shared-tx-buffer");
+        }
+        self.handle_inner(ni, b, fi);
+        if shared {
+            let node = &mut self.nodes[ni];
+            std::mem::swap(&mut node.tx, &mut node.resp);
+            std::mem::swap(&mut node.twin_tx, &mut node.twin_resp);
+        }
+    }
+
+    fn handle_inner(&mut self, ni: usize, b: Vec<u8>, fi: Option<usize>) {
         let n = b.len();
         if let Some(f) = fi {
             let fr = &self.frames[f];
